@@ -291,7 +291,7 @@ func handleUIDStore(deps ServerDeps, conn net.Conn, tag string, parts []string, 
 			cleanedFlagsStr := flagSetToString(cleanedFlags)
 
 			// Move to Spam folder
-			err = message.MoveMessageToMailbox(targetDB, messageID, state.SelectedMailboxID, "Spam", targetUserID, cleanedFlagsStr, internalDate)
+			err = message.MoveMessageToMailbox(targetDB, messageID, state.SelectedMailboxID, int64(uid), "Spam", targetUserID, cleanedFlagsStr, internalDate)
 			if err != nil {
 				log.Printf("Failed to move message %d to Spam: %v", messageID, err)
 			} else {
@@ -309,7 +309,7 @@ func handleUIDStore(deps ServerDeps, conn net.Conn, tag string, parts []string, 
 			cleanedFlagsStr := flagSetToString(cleanedFlags)
 
 			// Move to INBOX
-			err = message.MoveMessageToMailbox(targetDB, messageID, state.SelectedMailboxID, "INBOX", targetUserID, cleanedFlagsStr, internalDate)
+			err = message.MoveMessageToMailbox(targetDB, messageID, state.SelectedMailboxID, int64(uid), "INBOX", targetUserID, cleanedFlagsStr, internalDate)
 			if err != nil {
 				log.Printf("Failed to move message %d to INBOX: %v", messageID, err)
 			} else {
